@@ -44,16 +44,23 @@ theorem BInv.add {e : Env} {nb : NB} {s s' : St} {n : Node} (h : BInv e nb s) (h
   · show endOf nb.frm (nb.children ++ [n]) = s'.pos
     rw [endOf_append, hto]
 
+/-- result of a builder step that consumed at least `d` bytes -/
+def BPostD (d : Nat) (e : Env) (nb : NB) (s : St) (nb' : NB) (s' : St) : Prop :=
+  BInv e nb' s' ∧ nb'.frm = nb.frm ∧ s.pos + d ≤ s'.pos
+
 /-- result of a builder step -/
-def BPost (e : Env) (nb : NB) (s : St) (nb' : NB) (s' : St) : Prop :=
-  BInv e nb' s' ∧ nb'.frm = nb.frm ∧ s.pos ≤ s'.pos
+abbrev BPost (e : Env) (nb : NB) (s : St) (nb' : NB) (s' : St) : Prop := BPostD 0 e nb s nb' s'
 
-theorem BPost.fwd {e : Env} {nb nb' : NB} {s s' : St} (h : BPost e nb s nb' s') : Fwd e s s' :=
-  ⟨h.1.inv, h.2.2⟩
+theorem BPostD.fwd {d : Nat} {e : Env} {nb nb' : NB} {s s' : St} (h : BPostD d e nb s nb' s') : Fwd e s s' :=
+  ⟨h.1.inv, Nat.le_trans (Nat.le_add_right _ _) h.2.2⟩
 
-theorem BPost.trans {e : Env} {nb nb' nb'' : NB} {s s' s'' : St} (h1 : BPost e nb s nb' s')
-    (h2 : BPost e nb' s' nb'' s'') : BPost e nb s nb'' s'' :=
-  ⟨h2.1, h2.2.1.trans h1.2.1, Nat.le_trans h1.2.2 h2.2.2⟩
+theorem BPostD.trans {d d2 : Nat} {e : Env} {nb nb' nb'' : NB} {s s' s'' : St} (h1 : BPostD d e nb s nb' s')
+    (h2 : BPostD d2 e nb' s' nb'' s'') : BPostD d e nb s nb'' s'' :=
+  ⟨h2.1, h2.2.1.trans h1.2.1, Nat.le_trans h1.2.2 (Nat.le_trans (Nat.le_add_right _ _) h2.2.2)⟩
+
+theorem BPostD.weaken {d : Nat} {e : Env} {nb nb' : NB} {s s' : St} (h : BPostD d e nb s nb' s') :
+    BPost e nb s nb' s' :=
+  ⟨h.1, h.2.1, Nat.le_trans (Nat.le_add_right _ _) h.2.2⟩
 
 theorem BPost.refl {e : Env} {nb : NB} {s : St} (h : BInv e nb s) : BPost e nb s nb s :=
   ⟨h, rfl, Nat.le_refl _⟩
